@@ -39,7 +39,7 @@ RULE = (
     "(a) 24 standalone parsers, k = 3 (quick) / 4 (thorough) over both alphabets, returned objects touched; (b) each of "
     "31 client-controlled CGI variables in turn on a real Request, every public attribute + 8 calls (64 sites): quick = all "
     "sites for k <= 2 (A) and the sites that can see the variable (found by environ-lookup recording and differential "
-    "probing) for k = 3 (A for Host / QUERY_STRING, B for the 24 variables with a grammar); thorough = all sites "
+    "probing) for k = 3 (A for Host / QUERY_STRING / PATH_INFO, B for the 24 variables with a grammar); thorough = all sites "
     "for k <= 3 (A and B) plus k = 4 on the dependent sites for Host / QUERY_STRING / PATH_INFO (A) and 6 variables (B); "
     "trusted_hosts (list and str) configurations for Host; reverse site order for the 6 variables whose sites share "
     "cached state; 16 server-side variants (Host / Content-Type / Content-Length / QUERY_STRING / PATH_INFO absent, "
@@ -507,7 +507,7 @@ GRAMMAR = {
     "HTTP_PRAGMA": G_LIST, "HTTP_ACCESS_CONTROL_REQUEST_HEADERS": G_LIST, "HTTP_MAX_FORWARDS": G_CL,
     "HTTP_TRANSFER_ENCODING": G_TE,
 }
-GQUICK_SHALLOW = {"HTTP_ACCEPT_CHARSET", "HTTP_ACCEPT_ENCODING", "HTTP_IF_NONE_MATCH", "HTTP_IF_UNMODIFIED_SINCE", "HTTP_DATE",
+GQUICK_SHALLOW = {"HTTP_IF_UNMODIFIED_SINCE", "HTTP_DATE",
                   "HTTP_PRAGMA", "HTTP_ACCESS_CONTROL_REQUEST_HEADERS", "HTTP_MAX_FORWARDS"}
 GDEEP_VARS = ("HTTP_HOST", "CONTENT_TYPE", "CONTENT_LENGTH", "QUERY_STRING", "PATH_INFO", "HTTP_COOKIE")
 
@@ -562,7 +562,7 @@ VARS = {
 # the others are handed out as plain strings or go straight into one of the standalone parsers above, which
 # see the same alphabet at depth 3 (request level: depth 2 in quick, 3 in thorough)
 INTERPRETED = {
-    "HTTP_HOST", "QUERY_STRING",
+    "HTTP_HOST", "QUERY_STRING", "PATH_INFO",
 }
 PAIRS = [
     ("CONTENT_TYPE", "CONTENT_LENGTH"),
@@ -899,7 +899,7 @@ def units(tier):
     for i in range(len(MP_CD)):
         us.append(("mpart", i))
     for i in range(len(D_DAYS)):
-        us.append(("dates", i, "all" if T else "deps"))
+        us.append(("dates", i, "all"))
     for name, kind in P_OF.items():
         for hi in range(len(P_KIND[kind][0])):
             us.append(("params", name, hi, "all" if T else "deps"))
@@ -1245,7 +1245,7 @@ def _run(unit, kind, R, ctx, tier):
         _k, var, first, cfg = unit
         alpha = galphabet(var)
         R.use("config:" + cfg)
-        for v in seqs_from(alpha, first, 3 if (cfg == "trusted_hosts" or tier == "thorough") else 2):
+        for v in seqs_from(alpha, first, 3):
             eval_request(ctx, {var: v}, config=cfg, family="grammar", sites=site_deps()[var])
         return
     if kind == "order":
@@ -1298,7 +1298,7 @@ def _run(unit, kind, R, ctx, tier):
                 R.nontrivial((name, v))
         else:
             sites = SITES if which == "all" else site_deps()[name]
-            for v in param_inputs(P_OF[name], hi, P_TAILS if which == "all" else P_TAILS[:3]):
+            for v in param_inputs(P_OF[name], hi):      # all tails in both tiers (quick: dependent sites)
                 eval_request(ctx, {name: v}, family="params", sites=sites)
                 R.nontrivial((name, v))
         return
